@@ -102,6 +102,23 @@ def check_builder(ctx, facts, body, rule="R1", TBA=TBA, KEYFRAME=KEYFRAME):
             stale = _mentions_outside(v, X, K)
             derived = mentions(v, lambda x: x == K)
             if name == roles["boundary"]:
+                # exactly one entry per keyframe, in keyframe order: collect(map(iter(&K), |k| k.<time>)) and nothing else
+                # (the per-property index maps have one entry per keyframe; the two must stay parallel)
+                okimg = v[0] == "call" and v[1].endswith("Iterator::collect") and len(v[2]) == 1 and \
+                    v[2][0][0] == "call" and v[2][0][1].endswith("Iterator::map") and \
+                    v[2][0][2][0] == ("call", "core::slice::<impl [T]>::iter", (("&", K),))
+                if okimg:
+                    clo = v[2][0][2][1]
+                    cb = facts.bodies.get(clo[2]) if clo[0] == "agg" and clo[1] == "closure" else None
+                    okimg = False
+                    if cb is not None:
+                        cps = [q for q in pse.Engine(facts).run(cb) if q.outcome == "return"]
+                        okimg = len(cps) == 1 and cps[0].ret == ("field", ("deref", ("param", 2)), kf_roles["time"])
+                ctx.ob(rule, inst + "/boundary-parallel-to-keyframes", okimg,
+                       "boundary_times must hold exactly one entry per keyframe - the keyframe's position, in keyframe "
+                       "order (collect(map(iter(&keyframes), |k| k.%s))); any filtering, de-duplication or later mutation "
+                       "breaks the correspondence with the per-property index maps; it is %s" % (kf_roles["time"], show(v)[:300]),
+                       body["span"], trace_of(p), what="boundary-table-not-parallel")
                 ctx.ob(rule, inst + "/boundary-from-sorted", derived and not stale,
                        "boundary_times must be derived from the keyframes *after* they were sorted; it is %s"
                        % show(v), body["span"], trace_of(p),
